@@ -115,7 +115,7 @@ Proof. intro I. unfold check_elected. destruct (N.leb _ _); [exact I|]. destruct
 Lemma om_thandle x m : outs_mine c x -> outs_mine c (thandle c wm shut x m).
 Proof.
   intro I. destruct m; cbn [thandle].
-  - unfold handle_pp. destruct (negb _); [exact I|]. destruct (negb _); [exact I|]. destruct (negb _); [exact I|]. apply om_process_pp; exact I.
+  - unfold handle_pp. destruct (negb _); [exact I|]. destruct (negb _); [exact I|]. destruct (negb _); [exact I|]. destruct (negb _); [exact I|]. apply om_process_pp; exact I.
   - unfold handle_p. repeat (match goal with |- outs_mine _ (if ?b then _ else _) => destruct b; [exact I|] end). apply om_check_prepared. mcrush.
   - unfold handle_c. repeat (match goal with |- outs_mine _ (if ?b then _ else _) => destruct b; [exact I|] end). apply om_check_committed. mcrush.
   - unfold handle_vc. repeat (match goal with |- outs_mine _ (if ?b then _ else _) => destruct b; [exact I|] end).
